@@ -24,6 +24,7 @@ import (
 	"fmt"
 
 	"github.com/gontainer/gontainer-helpers/v3/grouperror"
+	"github.com/gontainer/gontainer/internal/pkg/maps"
 	"github.com/gontainer/gontainer/internal/pkg/regex"
 )
 
@@ -85,7 +86,8 @@ func ValidateMetaContainerConstructor(m Meta) error {
 
 func ValidateMetaImports(m Meta) error {
 	var errs []error
-	for a, imp := range m.Imports {
+	for _, a := range maps.Keys(m.Imports) {
+		imp := m.Imports[a]
 		if !regexMetaImport.MatchString(imp) {
 			errs = append(errs, fmt.Errorf("invalid import %+q", imp))
 		}
@@ -98,7 +100,8 @@ func ValidateMetaImports(m Meta) error {
 
 func ValidateMetaFunctions(m Meta) error {
 	var errs []error
-	for fn, goFn := range m.Functions {
+	for _, fn := range maps.Keys(m.Functions) {
+		goFn := m.Functions[fn]
 		if !regexMetaFn.MatchString(fn) {
 			errs = append(errs, fmt.Errorf("invalid function %+q", fn))
 		}
